@@ -3,9 +3,11 @@
    which an element was produced and the serial number of the call that evaluated it. *)
 From Anydb Require Import Common.Base Eager.EDriver Eager.EDriverProofs Eager.EVersion Eager.EVersionProofs.
 
-(* raw and compressed formats: after any history of compute calls (any sources, dependency versions, max_from,
-   caps), writes, flush + re-imports and own-version changes, every element carries the header's
-   computed version, in memory and on disk *)
+(* raw and compressed formats: after any history of compute calls (any sources, dependency versions,
+   max_from, caps; user closures that fail part-way, leaving the values computed so far unwritten),
+   values pushed by hand without a write (presented under the recorded version), writes, flush +
+   re-imports and own-version changes, every element carries the header's computed version, in
+   memory and on disk *)
 Theorem C19_no_mix :
   forall (Src St Out : Type) (m : method Src St Out) compressed (h : list (vop (Src:=Src))) (own : N),
   let v := fst (vrun m compressed h (vinit own)) in
@@ -22,6 +24,16 @@ Theorem C19_discard :
   Forall (fun x => snd x = (vv v + dep, serial)) (contents v') /\ cv v' = vv v + dep.
 Proof. exact @discard. Qed.
 Print Assumptions C19_discard.
+
+(* in particular for a state that holds results ONLY in the pushed buffer (hand-pushed values, or
+   the prefix left by a call that failed before its write): nothing stored, something unwritten *)
+Theorem C19_discard_unwritten :
+  forall (Src St Out : Type) (m : method Src St Out) compressed src dep mf cap serial (v : vec (@tout Out)),
+  stored v = [] -> pushed v <> [] -> vv v + dep <> cv v ->
+  let v' := fst (compute_tagged m compressed src dep mf cap serial v) in
+  Forall (fun x => snd x = (vv v + dep, serial)) (contents v') /\ cv v' = vv v + dep.
+Proof. exact @discard_unwritten. Qed.
+Print Assumptions C19_discard_unwritten.
 
 (* version equal => the elements below min(max_from, stored length) are the same tagged elements:
    neither altered nor re-evaluated (a re-evaluated element would carry this call's serial) *)
